@@ -3,10 +3,11 @@ proved specification closedb G d = true <-> Closed G d) is run on every document
 implementation produces from generated workbooks; (h) plain JSON and (i) absence of the
 hard-exit sentinel are checked on the serialised text."""
 import json
+import re
 
 import flowutil
 import sheetgen
-from common import enc_str
+from common import enc_str, enc_list, parse_sexp, dec_str, run_cli_mode
 
 LEVEL = "translation_validation"
 CLAUSES = {1: "node identifiers are not unique", 2: "a node/exit/category/case clause fails (b-f)",
@@ -38,12 +39,125 @@ def dup_given_node_ids(sheets):
     return dup
 
 
-def judge(ctx, sheets, nontrivial, samples, label):
+DUP_MSG = "is used by more than one node of flow"
+
+
+def directed_dup_cases():
+    """Sheets in which one GIVEN `_nodeId` is written on several rows / reaches several nodes, with what the
+    property allows for each: 'one-node' = the rows are legitimately merged into ONE node (or end up in different
+    flows), the workbook compiles and is closed; 'two-nodes' = the rows cannot be one node, so the only
+    outcomes compatible with the property are 'does not compile' (what the code does since the repair of the
+    finding duplicate-given-node-id) or distinct identifiers - never a compiled flow with a repeated id.
+    They go through `judge` like every generated workbook; the outcome is recorded in the statistics."""
+    E, S = sheetgen.edge, "start"
+    N = "11111111-1111-4111-8111-111111111111"
+    msg = lambda rid, frm, text, **kw: dict({"type": "send_message", "row_id": rid, "edges": [E(frm=frm)], "arg": text}, **kw)
+    wait = lambda rid, frm, **kw: dict({"type": "wait_for_response", "row_id": rid, "edges": [E(frm=frm)], "arg": ""}, **kw)
+    blk = [msg("b1", S, "in block {{w}}", node_uuid=N)]
+    bdata = (["ID", "w"], [dict(ID="d1", w="one"), dict(ID="d2", w="two")])
+
+    def with_block(flows):
+        sheets = {"content_index": (flowutil.INDEX_HEADERS,
+                                    [dict(type="data_sheet", sheet_name="bdata"), dict(type="template_definition", sheet_name="blk")]
+                                    + [dict(type="create_flow", sheet_name=n) for n in flows]),
+                  "bdata": bdata, "blk": sheetgen.render_sheet(blk, None, "short")}
+        for n, rows in flows.items():
+            sheets[n] = sheetgen.render_sheet(rows, None, "short")
+        return sheets
+
+    ins = lambda rid, frm, row="d1": {"type": "insert_as_block", "row_id": rid, "edges": [E(frm=frm)], "arg": "blk",
+                                      "data_sheet": "bdata", "data_row_id": row}
+    one = lambda rows: flowutil.single_flow_workbook("f1", *sheetgen.render_sheet(rows, None, "short"))
+    return [
+        ("two-nodes", "two router rows", one([
+            {"type": "split_random", "row_id": "1", "edges": [E(frm=S)], "arg": "", "node_uuid": N}, wait("2", "1", node_uuid=N)])),
+        ("two-nodes", "message row then router row", one([msg("1", S, "hi", node_uuid=N), wait("2", "1", node_uuid=N)])),
+        ("two-nodes", "router row inside a loop", one([
+            {"type": "begin_for", "row_id": "L", "edges": [E(frm=S)], "arg": ["a", "b"], "loop_variable": ["x"]},
+            wait("w", "", node_uuid=N), {"type": "end_for", "row_id": "", "edges": [E()]}])),
+        ("two-nodes", "template with a node id inserted twice into one flow", with_block(
+            {"f1": [msg("1", S, "hi"), ins("i1", "1"), ins("i2", "i1", "d2")]})),
+        ("one-node", "two message rows merged through the node id", one([msg("1", S, "hi", node_uuid=N), msg("2", "1", "again", node_uuid=N)])),
+        ("one-node", "three rows merged through a node name", one([msg("1", S, "a", node_name="nn"), msg("2", "1", "b", node_name="nn"),
+                                                                   msg("3", "2", "c", node_name="nn")])),
+        ("one-node", "message row in a loop, merged over the iterations", one([
+            {"type": "begin_for", "row_id": "L", "edges": [E(frm=S)], "arg": ["a", "b", "c"], "loop_variable": ["x"]},
+            msg("", "", "say {{x}}", node_uuid=N), {"type": "end_for", "row_id": "", "edges": [E()]}])),
+        ("one-node", "template with a node id inserted once into each of two flows", with_block(
+            {"f1": [msg("1", S, "hi"), ins("i1", "1")], "f2": [msg("1", S, "ho"), ins("i1", "1", "d2")]})),
+    ]
+
+
+def impl_validation(uuid_lists):
+    """FlowParser._compile_flow on flows of ONE container, each given as the list of its node uuids (basic nodes
+    in row node groups).  Per flow: None = passes, else the uuid the critical error names ('?' when the message
+    quotes none)."""
+    import tablib
+    from rpft.parsers.creation.flowparser import FlowParser, RowNodeGroup
+    from rpft.rapidpro.models.containers import RapidProContainer
+    from rpft.rapidpro.models.nodes import BasicNode
+
+    container = RapidProContainer()
+    out = []
+    for i, us in enumerate(uuid_lists):
+        fp = FlowParser(container, f"v{i}", table=tablib.Dataset(headers=["row_id", "type"]))
+        for u in us:
+            node = BasicNode(uuid=u)
+            node.update_default_exit(None)
+            fp.current_node_group().add_node_group(RowNodeGroup(node, "send_message"))
+        r = run_cli_mode(fp._compile_flow)
+        if r[0] == "ok":
+            if [n.uuid for n in r[1].nodes] != list(us):
+                out.append("nodes changed")
+            else:
+                container.add_flow(r[1])
+                out.append(None)
+        else:
+            q = re.findall(r'"([^"]*)"', str(r[-1]))
+            out.append(q[0] if r[1] == "critical" and q else "?" if r[1] == "critical" else "crash " + str(r[1:]))
+    return out
+
+
+def validation_correspondence(ctx):
+    """model (Flow/NodeIdCheck.v: compile_flow_validation, following the probed compile_checks_node_uuids) vs
+    FlowParser._compile_flow on lists of node uuids over a small pool (so that repetitions are frequent), one
+    to three flows per container (a repeated uuid ACROSS flows is not an error)"""
+    m, rng = ctx.model, ctx.rng
+    if not m:
+        return
+    pool = [sheetgen.new_uuid(rng) for _ in range(5)]
+    cases = [[[]], [[pool[0]]], [[pool[0], pool[0]]], [[pool[0], pool[1]], [pool[0], pool[1]]], [[pool[0], pool[1], pool[0]], [pool[1]]]]
+    for _ in range(150 * ctx.scale):
+        cases.append([[rng.choice(pool) for _ in range(rng.choice([0, 1, 2, 3, 4, 6]))] for _ in range(rng.choice([1, 1, 2, 3]))])
+    flat = [us for c in cases for us in c]
+    outs = m.ask_many(["(101 1 %s)" % enc_list(enc_str(u) for u in us) for us in flat])
+    k, passed, rejected = 0, 0, 0
+    for c in cases:
+        im = impl_validation(c)
+        for us, r in zip(c, im):
+            mo = parse_sexp(outs[k])
+            mo = dec_str(mo[0]) if mo else None
+            k += 1
+            ctx.v.coverage["evaluations"] += 1
+            passed += r is None
+            rejected += r is not None
+            if mo != r and not (r == "?" and mo is not None):
+                ctx.disagree("_compile_flow node-uuid validation", repr(us), repr(mo), repr(r))
+    ctx.stats["validation_correspondence"] = dict(flows=k, passed=passed, rejected=rejected,
+                                                  model_has_validation=m.ask("(101 2)") == "1")
+
+
+def judge(ctx, sheets, nontrivial, samples, label, outcome=None):
     v, m = ctx.v, ctx.model
     v.coverage["evaluations"] += 1
     r = flowutil.compile_workbook(sheets)
+    if outcome is not None:
+        outcome.append("compiles" if r[0] == "ok" else
+                       "rejected: duplicate node id" if DUP_MSG in str(r[-1]) else "does not compile: " + str(r[-1])[:80])
     if r[0] != "ok":
         ctx.count("does_not_compile")
+        if DUP_MSG in str(r[-1]):
+            ctx.count("rejected_duplicate_node_id")
         return
     doc = r[1]
     ctx.count("compiled")
@@ -134,6 +248,14 @@ def run(ctx):
     thorough = ctx.tier == "thorough"
     n = (15000 if thorough else 600) * ctx.scale
     nontrivial, samples = set(), []
+    # directed: one given node id on several rows (legitimately merged / impossible to merge)
+    directed = {}
+    for expect, what, sheets in directed_dup_cases():
+        out = []
+        judge(ctx, sheets, nontrivial, samples, "directed_dup_node_id", out)
+        directed[f"{what} [{expect}]"] = out[0]
+    ctx.stats["directed_duplicate_node_id"] = directed
+    validation_correspondence(ctx)
     for i in range(n):
         rng = ctx.rng
         x = rng.random()
@@ -205,7 +327,9 @@ def run(ctx):
     ctx.v.coverage["rule"] = (
         "generated workbooks: core sheets (60% well-formed, 40% with repeated defaults/duplicate tests/re-targeting), sheets with "
         "merged rows, sugared sheets (loops, blocks, include_if, nesting), go_to cycles, joins, given and blank node ids, group "
-        "uuids, one or two flows per workbook, plain and template instantiation; every compiled document judged by closedb. "
+        "uuids, one or two flows per workbook, plain and template instantiation, 6% with one given node id forced on two rows, plus 8 "
+        "directed sheets with one given node id on several rows (merged into one node / impossible to merge: two router rows, "
+        "a router row in a loop, a template inserted twice); every compiled document judged by closedb. "
         "non-trivial = distinct (exits, actions) shape of a document with >= 3 nodes and a router")
     ctx.v.assumptions += [
         "an identifier of the output is GIVEN when the string occurs in a cell of the input workbook, otherwise INVENTED",
